@@ -82,7 +82,8 @@ func (c *call) UnmarshalJSON(d []byte) error {
 }
 
 var mayRefuse = map[string]bool{"xmss.Verify": true, "xmss.VerifyW": true, "xmss.GetXMSSAddressFromPK": true, "xmss.GetLegacyXMSSAddressFromPK": true,
-	"misc.MnemonicToSeedBin": true, "misc.MnemonicToExtendedSeedBin": true, "dilithium.NewDilithiumFromMnemonic": true, "xmss.IsValidXMSSAddress": true, "xmss.IsValidLegacyXMSSAddress": true}
+	"misc.MnemonicToSeedBin": true, "misc.MnemonicToExtendedSeedBin": true, "dilithium.NewDilithiumFromMnemonic": true, "xmss.IsValidXMSSAddress": true, "xmss.IsValidLegacyXMSSAddress": true,
+	"xmss.NewQRLDescriptorFromBytes": true, "xmss.LegacyQRLDescriptorFromBytes": true}
 
 // run executes the call and judges the outcome. guard = which answer was given (for the evidence).
 func run(r *ev.Recorder, c *call) (key, msg, guard string) {
@@ -128,6 +129,10 @@ func run(r *ev.Recorder, c *call) (key, msg, guard string) {
 		case "xmss.GetLegacyXMSSAddressFromPK":
 			x := xmss.GetLegacyXMSSAddressFromPK(pkX)
 			resLen = len(x)
+		case "xmss.NewQRLDescriptorFromBytes":
+			resB = xmss.NewQRLDescriptorFromBytes(gSig) != nil // Sig holds the descriptor bytes (any length) here
+		case "xmss.LegacyQRLDescriptorFromBytes":
+			resB = xmss.LegacyQRLDescriptorFromBytes(gSig) != nil
 		case "dilithium.Verify":
 			resB = dilithium.Verify(gMsg, sigD, &pkD)
 		case "dilithium.Open":
@@ -485,7 +490,7 @@ func TestDilithiumHostile(t *testing.T) {
 
 func TestAddressesHostile(t *testing.T) {
 	r := ev.New(t, prop, "TestAddressesHostile")
-	r.Rule("rapid + exhaustive descriptors: IsValidXMSSAddress / IsValidLegacyXMSSAddress / Get(Legacy)XMSSAddressFromPK over ALL 65536 values of the first two descriptor bytes (third byte varied) with random bodies, IsValidDilithiumAddress / GetDilithiumAddressFromPK on random bytes; oracle: value or explicit string panic (derivations may refuse an unsupported address format), never a runtime fault, inputs unchanged; non-trivial = every call (all 16^4 descriptor nibble combinations enumerated), distinct by (entry, descriptor, body)")
+	r.Rule("rapid + exhaustive descriptors: IsValidXMSSAddress / IsValidLegacyXMSSAddress / Get(Legacy)XMSSAddressFromPK over ALL 65536 values of the first two descriptor bytes (third byte varied) with random bodies, IsValidDilithiumAddress / GetDilithiumAddressFromPK on random bytes, NewQRLDescriptorFromBytes / LegacyQRLDescriptorFromBytes on descriptor bytes of every length 0..7; oracle: value or explicit string panic (derivations may refuse an unsupported address format), never a runtime fault, inputs unchanged; non-trivial = every call (all 16^4 descriptor nibble combinations enumerated), distinct by (entry, descriptor, body)")
 	n := 0
 	for d0 := 0; d0 < 256; d0++ {
 		for d1 := 0; d1 < 256; d1++ {
@@ -501,7 +506,12 @@ func TestAddressesHostile(t *testing.T) {
 			judge(t, r, &call{Entry: "xmss.IsValidXMSSAddress", Addr: body[:20], Class: "all-descriptors"})
 			judge(t, r, &call{Entry: "xmss.IsValidLegacyXMSSAddress", Addr: body[:39], Class: "all-descriptors"})
 			judge(t, r, &call{Entry: "dilithium.IsValidDilithiumAddress", Addr: body[:20], Class: "all-descriptors"})
-			r.NonTrivialEnum(5)
+			// the descriptor decoders on descriptor bytes of every length 0..7 (3 is the only well-formed one)
+			for _, e := range []string{"xmss.NewQRLDescriptorFromBytes", "xmss.LegacyQRLDescriptorFromBytes"} {
+				judge(t, r, &call{Entry: e, Sig: body[:3], Class: "all-descriptors"})
+				judge(t, r, &call{Entry: e, Sig: body[:n%8], Class: "descriptor-bytes-any-length"})
+			}
+			r.NonTrivialEnum(9)
 		}
 	}
 	r.Exhaustive("all 65536 values of the first two descriptor bytes for the four XMSS address entry points")
